@@ -83,6 +83,21 @@ def alterations(p, r, limit=None):
                         # the scheme authenticates only the sum of their sizes
                         so = (sec in ("hash", "seek")) and k <= 1
                         q = copy.deepcopy(p); q[sec][ln][k][1] += d; add("%s.%s[%d].size%+d" % (sec, ln, k, d), q, so)
+                # node hashes of another LENGTH: one byte dropped / appended, and a byte moved between the hashes of two
+                # neighbouring nodes (the parent preimage concatenates the two child hashes without a separator, so a 31 + 33 byte
+                # pair hashes like the honest 32 + 32 byte pair)
+                q = copy.deepcopy(p); q[sec][ln][k][2] = ns[k][2][:-2]; add("%s.%s[%d].hash-len-31" % (sec, ln, k), q)
+                q = copy.deepcopy(p); q[sec][ln][k][2] = ns[k][2] + "00"; add("%s.%s[%d].hash-len-33" % (sec, ln, k), q)
+                if k + 1 < len(ns):
+                    q = copy.deepcopy(p); q[sec][ln][k][2] = ns[k][2][:-2]; q[sec][ln][k + 1][2] = ns[k][2][-2:] + ns[k + 1][2]
+                    add("%s.%s[%d].hash-shift-31-33" % (sec, ln, k), q)
+                    q = copy.deepcopy(p); q[sec][ln][k][2] = ns[k][2] + ns[k + 1][2][:2]; q[sec][ln][k + 1][2] = ns[k + 1][2][2:]
+                    add("%s.%s[%d].hash-shift-33-31" % (sec, ln, k), q)
+                    # ... and for the other order of the two children in the parent preimage (node k + 1 on the left)
+                    q = copy.deepcopy(p); q[sec][ln][k + 1][2] = ns[k + 1][2][:-2]; q[sec][ln][k][2] = ns[k + 1][2][-2:] + ns[k][2]
+                    add("%s.%s[%d].hash-shift-rev-33-31" % (sec, ln, k), q)
+                    q = copy.deepcopy(p); q[sec][ln][k + 1][2] = ns[k + 1][2] + ns[k][2][:2]; q[sec][ln][k][2] = ns[k][2][2:]
+                    add("%s.%s[%d].hash-shift-rev-31-33" % (sec, ln, k), q)
                 q = copy.deepcopy(p); del q[sec][ln][k]; add("%s.%s[%d].drop" % (sec, ln, k), q)
                 q = copy.deepcopy(p); q[sec][ln].insert(k, copy.deepcopy(ns[k])); add("%s.%s[%d].dup" % (sec, ln, k), q)
                 if k + 1 < len(ns):
@@ -112,7 +127,7 @@ def alterations(p, r, limit=None):
                     if p[sec][f] + d >= 0:
                         q = copy.deepcopy(p); q[sec][f] += d; add("upgrade.%s%+d" % (f, d), q)
     if limit and len(out) > limit:
-        keep = [x for x in out if "value" in x[0] or "signature" in x[0] or "fork" in x[0]]
+        keep = [x for x in out if "value" in x[0] or "signature" in x[0] or "fork" in x[0] or "hash-shift" in x[0]]
         rest = [x for x in out if x not in keep]
         r.shuffle(rest)
         out = keep + rest[:max(0, limit - len(keep))]
